@@ -18,7 +18,7 @@ CLAIMS = {
                 "the derivative recursion (m=0 -> value, k=1 or m>=k -> 0, factor k-1, Some(org_k) on every recursive call); every quotient's "
                 "denominator must be the difference its guard tests. Non-negativity, locality and partition of unity are consequences of the "
                 "recurrence and are not separately evaluated."
-                ' Also included: R15.4 (the basis at a dual abscissa) and R15.6 (the vectorised evaluator and the Python-facing spline methods reach the kernels with their arguments unchanged). Path sets are minimised, so the order of independent tests does not matter. R15.1 is included too (the collocation matrix evaluates basis i at site j for every site).',
+                ' Also included: R15.4 (the basis at a dual abscissa) and R15.6 (the vectorised evaluator and the Python-facing spline methods reach the kernels with their arguments unchanged). Path sets are minimised, so the order of independent tests does not matter. R15.1 is included too (the collocation matrix evaluates basis i at site j for every site), and R15.3 (the evaluator sums all n basis functions).',
         "design_ref": "DESIGN.md §4 C14",
         "note": "Not decided: values at concrete knots/points, rounding. A behaviour-preserving restructuring of the kernels' decision order can trip R14.1 (fail closed).",
         "technique": "path-set equality of symbolic summaries against the recurrence; guard/denominator agreement",
@@ -29,7 +29,7 @@ CLAIMS = {
                 "row swap must be immediately followed by the rhs swap with the same (j,k) under j != k with k = argabsmax(A[j.., j]) + j, argabsmax "
                 "must compare absolute values; back substitution is x[i] = (b[i] - u[i,i+1..].x[i+1..])/u[i,i] descending in both; with allow_lsq the "
                 "system is (A^T A, A^T b) from the same transposed operand. Numerical correctness of elimination is NOT decided."
-                ' Also: row_swap/el_swap exchange whole rows/elements (R13.1); the AD rules are included.',
+                ' Also: row_swap/el_swap exchange whole rows/elements (R13.1); the AD rules and the sum rules R19.4/R19.5 are included (inner products are Iterator::sum). R13.6: the Python-facing solver entry points hand a (reshaped row-major), b and allow_lsq to the core solver unchanged and return its result as it is.',
         "design_ref": "DESIGN.md §4 C13",
         "note": "Not decided (declared): that the returned vector solves the system in value and derivatives for all well-conditioned inputs; row-order independence.",
         "technique": "sibling cross-check of canonical update-statement lists; call pairing with index agreement; idiom check",
@@ -41,7 +41,7 @@ CLAIMS = {
                 "index) and paired with edge writes; crosses only where the edge entry is 0; Ok(true) only under edges.sum()==n*n, exhausted "
                 "candidates give Err; lookup reads [idx(lhs), idx(rhs)] in all variants. By induction every entry of an Ok market is the product of "
                 "quotes along a path with inverses on reversed edges, quoted pairs returned as quoted."
-                " Also included: C10's state rules R10.3-R10.6, the FXRates loader rule (S20.2: a stored market goes through try_new) and R10.7 (Python-facing FXRates methods delegate unchanged). S16.1 is included (a stored market's quotes come back exactly: exact float text round trip); the starting-array builders are found by what they return, not by name. R09.8: the edge-count capacity; the Ccy/FXPair loader rules are included.",
+                " Also included: C10's state rules R10.3-R10.6, the FXRates loader rule (S20.2: a stored market goes through try_new) and R10.7 (Python-facing FXRates methods delegate unchanged). S16.1 is included (a stored market's quotes come back exactly: exact float text round trip); the starting-array builders are found by what they return, not by name. R09.8: the edge-count capacity; the Ccy/FXPair loader rules are included. R09.9: a quote is stored as given (FXRate::try_new, and Python's FXRate(...) is that constructor).",
         "design_ref": "DESIGN.md §4 C09",
         "note": "Not decided (declared): that every valid tree is accepted (liveness of the recursive fill-in); order/base independence as executed; rounding.",
         "technique": "path flattening of symbolic summaries; array-comprehension semantics of indexed writes (chain typing); quantifier shapes",
@@ -108,7 +108,7 @@ CLAIMS = {
                 "each relationship (ordered equality, not set equality); in every match on a vars_cmp result only Arc/Value arms may mix two "
                 "numbers' arrays directly; hints must be the vars_cmp result of the same operands; equality compares value then aligned arrays. "
                 "If every mix is on operands aligned by name with zero default onto a list containing the union, results depend on names only."
-                ' Also included: the Number container tables (R18.3), Sum (R19.4) and the Python-facing operators incl. __eq__ (R18.4), which must hand operands to the by-name core operators unchanged.',
+                ' Also included: the Number container tables (R18.3), Sum (R19.4) and the Python-facing operators incl. __eq__ (R18.4), which must hand operands to the by-name core operators unchanged. R03.8: new_from/try_new_from are the plain constructor followed by to_new_vars(other.vars(), None), vars_from is try_new_from. Included: the dual-number cases of R20.6 (constructors and loaders establish matching shapes) and the storage rules S16.2/3/7 of the two number types.',
         "design_ref": "DESIGN.md §4 C03",
         "note": "Trusted: IndexSet/Arc semantics, lib/cel.py array-comprehension semantics. Nothing dynamic is claimed.",
         "technique": "symbolic evaluation of gather loops as array comprehensions; dataflow guard on match arms; quantifier-shape recognisers",
@@ -128,7 +128,7 @@ CLAIMS = {
                 "first-interval rule of the zero-rate formula; the flat rules are compared as canonical (condition, value) pairs; every interpolator "
                 "must feed nodes index/index+1 of its own map (x0 from index 0) to its own formula in order, with index = node_index = "
                 "index_left(keys, ts, None); CurveDF::try_new sorts on every path to construction and is the only constructor."
-                ' Also: R11.5 (index_left as the bisection recurrence, judged per region of list lengths), R11.6 (node keys converted exactly as the query date), R11.4 widened to every CurveDF construction incl. the loader, R12.2 (sort before tagging) and R12.4 (the Python-facing Curve delegates unchanged).',
+                ' Also: R11.5 (index_left as the bisection recurrence, judged per region of list lengths), R11.6 (node keys converted exactly as the query date), R11.4 widened to every CurveDF construction incl. the loader, R12.2 (sort before tagging) and R12.4 (the Python-facing Curve delegates unchanged). R11.7: first_key()/keys()/sort_keys() of the node map do the same for all three kinds.',
         "design_ref": "DESIGN.md §4 C11",
         "note": "Not decided: index_left (recursive bisection) — which interval a date falls in, clamping; 'between the nodes' is a numeric consequence. Trusted: lib/cel.py.",
         "technique": "symbolic normalisation of typed HIR vs closed forms; MIR must-pass-through (sort before construct); who-may-construct",
@@ -157,7 +157,7 @@ CLAIMS = {
         "text": "partial_cmp impls are f64::partial_cmp of the two values in operand order and no other PartialOrd method is overridden; abs is the "
                 "piecewise flip of all fields; every % impl equals the oracle row a - trunc(a/b)*b in value and derivatives; Sum is fold(zero,+) from a "
                 "variable-free zero; zero()/one() are variable-free constants, neutral by the oracle rows."
-                ' Also: R19.1b (comparisons on the Number container), the quotient of `%` is trunc of one f64 division (R19.3 side condition), and the number-surface rules R18.3/R18.4. The alignment rules (C03 R03.3/R03.5: by-name gather of gradients and Hessians) are included. The container: Sum for Number is one fold from F64(0.0) with the container\'s own +, and Number::zero()/one() are the plain floats.',
+                ' Also: R19.1b (comparisons on the Number container), the quotient of `%` is trunc of one f64 division (R19.3 side condition), and the number-surface rules R18.3/R18.4. The alignment rules (C03 R03.3/R03.5: by-name gather of gradients and Hessians) are included. The container: Sum for Number is one fold from F64(0.0) with the container\'s own +, and Number::zero()/one() are the plain floats. R19.6: signum() is the variable-free constant signum(value), is_positive()/is_negative() are the sign bit of the value, is_zero() is `self == zero()`, and the container forwards each per kind.',
         "design_ref": "DESIGN.md §4 C19",
         "note": "Trusted: lib/cel.py, lib/oracle.py. Not decided: NaN ordering; abs exactly at zero.",
         "technique": "symbolic normalisation of typed HIR against a calculus oracle; idiom recognition (fold-from-zero)",
@@ -187,7 +187,7 @@ CLAIMS = {
                 "repository's own declarative Holiday(...) rule lists over 1970-2200 (the scripts are parsed with ast, never executed); partial "
                 "calendars must contain every weekday occurrence of their interpretable rules; the nine fixing histories must equal the calendars' "
                 "business days over their span. All ~29 000 literals and all 14 names are covered on every run."
-                " Also included: Cal's leaf membership tests (R06.0, R06.2) and the range enumeration used by the back-test (R05.1, R05.5, R04.1, R04.5). The storage rules of the calendar types are included (C16 S16.2/S16.3/S16.7 for calendars::calendar::*: a restored calendar is the stored one). Name-to-table wiring and plumbing are obtained by evaluating the getters on each literal name.",
+                " Also included: Cal's leaf membership tests (R06.0, R06.2) and the range enumeration used by the back-test (R05.1, R05.5, R04.1, R04.5). The storage rules of the calendar types are included (C16 S16.2/S16.3/S16.7 for calendars::calendar::*: a restored calendar is the stored one). Name-to-table wiring and plumbing are obtained by evaluating the getters on each literal name. The exported get_named_calendar is get_calendar_by_name(name) with the name as given.",
         "design_ref": "DESIGN.md §4 C07",
         "note": "Trusted: lib/holidays.py (interpreter of the pandas Holiday subset; reproduces every fully interpretable table exactly), python ast/csv. "
                 "Not decided: whether the scripts themselves match the central banks' publications; holidays produced by script-local observance "
@@ -212,7 +212,7 @@ CLAIMS = {
                 "reviewed table with the control depth it had when reviewed; types with a validating constructor must deserialise through a "
                 "panic-free validating conversion; struct literals of shape-constrained types are confined to reviewed constructors. "
                 "Quantifies over code sites, which is how 'for any input' is reached without running anything."
-                ' R20.1 judges sites per root function (closures and extracted private helpers absorbed) as a multiset against the reviewed budget; every row whose reason rests on a guard cites the rule deciding that guard, and C20 includes those rules (R15.2, R08.2/3/5, R03.1/3/5, R09.1/2, R05.4/5, R06.3, R10.4/6, R11.4). R20.6: every Ok path of a validating constructor/loader carries the shape invariant.',
+                ' R20.1 judges sites per root function (closures and extracted private helpers absorbed) as a multiset against the reviewed budget; every row whose reason rests on a guard cites the rule deciding that guard, and C20 includes those rules (R15.2, R08.2/3/5, R03.1/3/5, R09.1/2, R05.4/5, R06.3, R10.4/6, R11.4). R20.6: every Ok path of a validating constructor/loader carries the shape invariant. Site rows whose review relies on a loop (`inside for i in 0..n`) record a minimum loop depth: a site hoisted out of its loop is reported.',
         "design_ref": "DESIGN.md §4 C20",
         "note": "Trusted: rustc MIR, the reviewed reasons in rules/c20_sites.json (classes L/I/R/K/S are human-reviewed; machine-checked part is "
                 "table membership + dominating-branch count), the denylist of aborting externals. Not decided: aborts inside dependencies outside "
